@@ -26,6 +26,7 @@ inductive Outcome where
   | connackRefused (rc : Nat) (t : Nat) (d : DiscAt)      -- CONNACK with rc ≠ 0 after t ms
   | accepted (t : Nat) (life : Nat) (d : DiscAt)          -- CONNACK rc = 0 after t ms; connection lost `life` ms later
   | downgrade (t : Nat)                                   -- MQTT 3.1.1 only: CONNACK rc = 1 after t ms → immediate retry as MQTT 3.1
+  | preDisc                                               -- the application calls disconnect() inside on_pre_connect of this attempt
   deriving DecidableEq, Repr
 
 inductive Obs where
@@ -81,6 +82,7 @@ def Outcome.disc : Outcome → DiscAt
   | .connackRefused _ _ d => d
   | .accepted _ _ d => d
   | .downgrade _ => {}
+  | .preDisc => {}
 
 /-- phase 2 of `loop_forever` from the point where an attempt is about to be made (or, with `conn = some o`, where a
 connection with scripted outcome `o` has just been opened at time `s.now`) -/
@@ -132,6 +134,7 @@ def connLife (c : Cfg) (s : St) (o : Outcome) : St × Int × Bool :=
       let s := if d.inOnDisconnect then ({ s with disconnected := true }).emit (.userDisconnect s.now) else s
       (s, endRc, false)
   | .downgrade t => ({ s with now := s.now + t }, 0, true)
+  | .preDisc => (s, 7, false)       -- not a connection
 
 /-- the whole `loop_forever()` over a script; `first = true` while the state is CONNECT_ASYNC (phase 1) -/
 def run (c : Cfg) : (fuel : Nat) → (script : List Outcome) → (first : Bool) → St → St
@@ -156,8 +159,15 @@ def run (c : Cfg) : (fuel : Nat) → (script : List Outcome) → (first : Bool) 
         let s := s.emit (.attempt s.now true)
         -- in-handler reconnect(): no wait, delay register untouched
         let s := { s with now := s.now + t, proto := 3 }
-        -- (a socket failure of this retry is reported like any failed attempt: the next item is handled as usual)
-        run c fuel rest false s
+        match rest with
+        | .preDisc :: _ =>
+          -- disconnect() inside on_pre_connect of the in-handler reconnect(): it returns MQTT_ERR_NO_CONN, which
+          -- _handle_connack / loop_read() / _loop() hand back; the exit test ends loop_forever() with that code
+          let s := ({ s with disconnected := true }).emit (.userDisconnect s.now)
+          s.emit (.ret 4)
+        | _ =>
+          -- (a socket failure of this retry is reported like any failed attempt: the next item is handled as usual)
+          run c fuel rest false s
       else if s.proto = 4 then
         -- MQTT 3.1.1 with reconnect_on_failure off: _handle_connack returns MQTT_ERR_PROTOCOL before any callback
         let s := s.emit (.attempt s.now true)
@@ -167,6 +177,11 @@ def run (c : Cfg) : (fuel : Nat) → (script : List Outcome) → (first : Bool) 
       else
         -- not MQTT 3.1.1: an ordinary refused CONNACK (rc = 1)
         run c fuel (.connackRefused 1 t {} :: rest) first s
+    | .preDisc =>
+      -- disconnect() inside on_pre_connect: reconnect() returns MQTT_ERR_NO_CONN before it opens a socket (F37 repair);
+      -- the next _loop() finds no socket, returns CONN_LOST, and the exit test ends loop_forever()
+      let s := ({ s with disconnected := true }).emit (.userDisconnect s.now)
+      s.emit (.ret 7)
     | o =>
       let s := s.emit (.attempt s.now true)
       let (s, rc, _) := connLife c s o
